@@ -17,9 +17,14 @@ MIMES = ["text/plain", "text/html", "image/png", "application/json", "image/svg+
 ID_ALPHABET = "abcdefghijklmnopqrstuvwxyzABCDEFGHIJKLMNOPQRSTUVWXYZ0123456789-_"
 
 
+NUL_P = [0.0]      # knob: probability that a generated text gets the U+0000 line (set by the engine for some runs)
+
+
 def _lines(rng, lo=0, hi=5):
     n = rng.randint(lo, hi)
     ls = [rng.choice(VOCAB) for _ in range(n)]
+    if ls and NUL_P[0] and rng.random() < NUL_P[0]:
+        ls.insert(rng.randrange(len(ls) + 1), VOCAB_NUL)
     if ls and rng.random() < 0.3:
         ls[-1] = ls[-1].rstrip("\r\n")  # no final newline
     return "".join(ls)
@@ -147,6 +152,9 @@ def notebook(rng, max_cells=6, minor=None, shapes=None):
 
 
 # ---------------------------------------------------------------- edit scripts
+
+VOCAB_NUL = "nul = '\x00'\n"
+
 
 def _edit_lines(rng, text):
     ls = text.splitlines(True)
